@@ -19,7 +19,7 @@ import (
 func init() {
 	eng.Register(&eng.Check{
 		ID:           "C11",
-		Rule:         "E2 + overlay accessor (grammar.VerifParse returns the parser's step counter): inputs = every token sequence of <=2 tokens (thorough <=3) of the C15 alphabet, the C15 derivation set, invalid variants, long inputs (300..4000 bytes) whose syntax error is found early or that are valid, and nested parentheses of depth 0..6 (thorough 0..8 unlimited, 9..11 limited-only) x budgets n: EVERY n in 1..N+2 when N<=600 (N = step count of the unlimited parse), otherwise {1,2,3, N/2, N-2..N+2, 2N, 2^64-1} and all powers of two <= 2^22; oracle: n=0 or n>=N gives exactly the unlimited result (same tree dump / same error text); 0<n<N gives a nil value and the max-expressions error (its text is learned from a budget-1 parse, not hard-coded); a limited parse executes at most n+1 steps - by the parser's own counter AND by an independent count (the overlay hooks every entry of parseExpr, over all parser instances of the process); CreateEvaluator(WithMaxExpressions(n)) fails iff grammar.Parse(MaxExpressions(n)) fails; deep nesting is rejected within the budget (steps measured, no wall-clock oracle); the option given twice behaves as its last occurrence. Distinct by construction; non-trivial = (input, n) pairs with 0<n<N+3 (around or below the threshold).",
+		Rule:         "E2 + overlay accessor (grammar.VerifParse returns the parser's step counter): inputs = every token sequence of <=2 tokens (thorough <=3) of the C15 alphabet, the C15 derivation set, invalid variants, long inputs (300..4000 bytes) whose syntax error is found early or that are valid, and nested parentheses of depth 0..6 (thorough 0..8 unlimited, 9..11 limited-only) x budgets n: EVERY n in 1..N+2 when N<=600 (N = step count of the unlimited parse), otherwise {1,2,3, N/2, N-2..N+2, 2N, 2^64-1} and all powers of two <= 2^22; oracle: n=0 or n>=N gives exactly the unlimited result (same tree dump / same error text); 0<n<N gives a nil value and the max-expressions error (its text is learned from a budget-1 parse, not hard-coded); a limited parse executes at most n+1 steps - by the parser's own counter AND by an independent count (the overlay hooks every entry of parseExpr, over all parser instances of the process); budgets around the input LENGTH (len-1, len, len+1, (N+len)/2) are always included; CreateEvaluator(WithMaxExpressions(n)) fails iff grammar.Parse(MaxExpressions(n)) fails, and with the same error text; deep nesting is rejected within the budget (steps measured, no wall-clock oracle); the option given twice behaves as its last occurrence. Distinct by construction; non-trivial = (input, n) pairs with 0<n<N+3 (around or below the threshold).",
 		Assumptions:  []string{"read-only accessor added by the generated overlay (build tag verif); /repo is not modified", "bounded input set and budget sweep as stated"},
 		Run:          runC11,
 		NeedsOverlay: "full",
@@ -161,6 +161,10 @@ func runC11(c *eng.Ctx) {
 				budgets = append(budgets, n)
 			}
 			budgets = append(budgets, 2*N, math.MaxUint64)
+			// budgets around the LENGTH of the input (a shortcut that reasons about bytes instead of steps shows between N and len)
+			if L := uint64(len(in)); L > N+2 {
+				budgets = append(budgets, (N+L)/2, L-1, L, L+1)
+			}
 		} else {
 			set := map[uint64]bool{0: unlimited, 1: true, 2: true, 3: true}
 			if unlimited {
@@ -170,6 +174,12 @@ func runC11(c *eng.Ctx) {
 			}
 			for k := uint(0); k <= 22; k++ {
 				set[1<<k] = true
+			}
+			if L := uint64(len(in)); L > 1 {
+				set[L-1], set[L], set[L+1] = true, true, true
+				if unlimited {
+					set[(N+L)/2] = true
+				}
 			}
 			for n, ok := range set {
 				if ok {
@@ -203,6 +213,9 @@ func runC11(c *eng.Ctx) {
 			c.R.Evaluations++
 			if (cerr != nil) != (r.errText != "") {
 				c.Violate(eng.Violation{Kind: "create-vs-parse-under-budget", Key: key, Coords: co, Expected: fmt.Sprintf("CreateEvaluator fails=%v", r.errText != ""), Observed: fmt.Sprintf("err=%v", cerr)})
+			} else if cerr != nil && cerr.Error() != r.errText && !strings.HasPrefix(cerr.Error(), "PANIC") {
+				// ... and fails FOR THE SAME REASON (a syntax error must not be reported as an exhausted budget or vice versa)
+				c.Violate(eng.Violation{Kind: "create-vs-parse-error-under-budget", Key: key, Coords: co, Expected: r.errText, Observed: cerr.Error()})
 			}
 			if !unlimited {
 				// deep nesting: only bounded work and a well-formed verdict are required
